@@ -172,6 +172,7 @@ type fnTrans struct {
 	lockSites     map[string][2]string // (lock-mode variable, object) pairs this function locks or unlocks
 	spawned       map[string]*FuncContract // contracts of the functions started with `go` in this function
 	cellFn        map[string]cellFnRec // local cells that hold a statically known closure (assigned exactly once)
+	stableFree    []stableCell             // captured variables that are never reassigned: survive havoc
 	shadowed      map[string]*FuncContract // repository functions under contract that were called through a scoped extern
 	dguard        Term                 // conditional defer being run: everything assumed / obliged holds when its defer statement was reached
 }
@@ -1165,6 +1166,7 @@ func (t *fnTrans) pass() {
 	t.cellFn = nil
 	t.spawned = nil
 	t.shadowed = nil
+	t.stableFree = nil
 	t.lockSites = nil
 	t.loopHeadSt = nil
 	t.allowedDone, t.allowed, t.allowedAll = false, nil, false
@@ -1228,6 +1230,11 @@ func (t *fnTrans) pass() {
 		t.vals[fv] = Val{T: n}
 		t.params[fv.Name()] = Val{P: &Path{Ref: n, Typ: fv.Type().(*types.Pointer).Elem()}}
 		t.paramTy[fv.Name()] = fv.Type().(*types.Pointer).Elem()
+		if capturedNeverReassigned(fn, fv) {
+			// a captured variable nobody assigns after its declaration (a captured receiver or parameter, `fl := ...` declared once)
+			// keeps its value across calls without a frame
+			t.stableFree = append(t.stableFree, stableCell{n, fv.Type().(*types.Pointer).Elem()})
+		}
 	}
 	// preconditions
 	if t.fc != nil {
@@ -1610,8 +1617,88 @@ func (t *fnTrans) setVar(name string, v Term) {
 	t.noteWrite(name)
 }
 
+type stableCell struct {
+	ref Term
+	typ types.Type
+}
+
+// capturedNeverReassigned: the variable behind the free variable fv of the function literal fn is stored to exactly once in the enclosing
+// function (its declaration / the copy of a parameter) and by no function literal of that function.
+func capturedNeverReassigned(fn *ssa.Function, fv *ssa.FreeVar) bool {
+	parent := fn.Parent()
+	if parent == nil {
+		return false
+	}
+	idx := -1
+	for i, f := range fn.FreeVars {
+		if f == fv {
+			idx = i
+		}
+	}
+	var cell *ssa.Alloc
+	n := 0
+	for _, b := range parent.Blocks {
+		for _, in := range b.Instrs {
+			if mc, ok := in.(*ssa.MakeClosure); ok && mc.Fn == fn && idx >= 0 && idx < len(mc.Bindings) {
+				a, ok := mc.Bindings[idx].(*ssa.Alloc)
+				if !ok || (cell != nil && cell != a) {
+					return false
+				}
+				cell = a
+				n++
+			}
+		}
+	}
+	if cell == nil || cell.Referrers() == nil {
+		return false
+	}
+	stores := 0
+	for _, r := range *cell.Referrers() {
+		switch x := r.(type) {
+		case *ssa.Store:
+			if x.Addr != ssa.Value(cell) {
+				return false
+			}
+			stores++
+		case *ssa.MakeClosure, *ssa.UnOp, *ssa.DebugRef:
+		default:
+			return false // its address goes somewhere else
+		}
+	}
+	if stores > 1 {
+		return false
+	}
+	var lits []*ssa.Function
+	var collect func(f *ssa.Function)
+	collect = func(f *ssa.Function) {
+		for _, a := range f.AnonFuncs {
+			lits = append(lits, a)
+			collect(a)
+		}
+	}
+	collect(parent)
+	for _, af := range lits {
+		for _, b := range af.Blocks {
+			for _, in := range b.Instrs {
+				if st, ok := in.(*ssa.Store); ok {
+					if f, ok := st.Addr.(*ssa.FreeVar); ok && f.Name() == fv.Name() {
+						return false
+					}
+				}
+			}
+		}
+	}
+	return true
+}
+
 // havocAll: an opaque call may change every heap location, global and ghost.
 func (t *fnTrans) havocAll(why string) {
+	defer func() {
+		for _, sc := range t.stableFree {
+			sv := t.derefVar(sc.typ)
+			t.assume(fmt.Sprintf("(= (select %s %s) (select %s %s))", t.get(t.cur, sv.Name), sc.ref, t.get(t.entrySt, sv.Name), sc.ref))
+		}
+	}()
 	t.noteWrite("*")
 	na := t.fresh("alloc_hv", "Int")
 	t.assume(fmt.Sprintf("(>= %s %s)", na, t.get(t.cur, "alloc")))
